@@ -88,3 +88,6 @@ package accounts
 //@   modifies nothing
 //@   loop 0 invariant idx: -1 <= rangeindex && rangeindex < len(m.Addresses)
 //@   loop 0 invariant none: forall j int :: 0 <= j && j <= rangeindex ==> m.Addresses[j] != address
+
+//@ # ---------------------------------------------------------------- lock discipline (C25)
+//@ guarded Accounts.list, Accounts.dirty by lock
